@@ -38,6 +38,11 @@ type schedTask struct {
 	opBudget uint64
 	lastSite int32
 	waitAddr unsafe.Pointer // simulated lock this task waits for
+	// real blocking primitives (channels, Cond, WaitGroup)
+	inBlocking  bool  // inside a bracketed, possibly blocking statement
+	realBlocked bool  // declared parked in the Go runtime; does not hold the processor
+	bkSince     int64 // wall clock (ns) at which a spinner first saw it not progressing
+	bkClock     uint64
 }
 
 type switchEvent struct {
@@ -91,7 +96,97 @@ func InstallHook() {
 	apd.VerifHook = hook
 	apd.VerifWait = simWait
 	apd.VerifWake = simWake
+	apd.VerifBkEnter = bkEnter
+	apd.VerifBkLeave = bkLeave
 }
+
+// Real blocking primitives. A task that enters a bracketed statement keeps the
+// processor; only if it makes no progress for 50 ms of wall time while other
+// tasks are spinning for their turn is it declared parked, and the processor
+// goes to the next runnable task (the wall clock decides *that* it is parked,
+// never *when* anything happens in simulated time: nothing else advances while
+// it holds the processor). When it is woken it runs to the end of the bracket,
+// marks itself runnable and waits for its turn; every bracketed statement ends
+// by letting freshly woken goroutines reach that point (settle), so the set of
+// runnable tasks is a function of simulated time.
+var (
+	sRealBlocks uint64
+	sUnbounded  bool
+)
+
+//go:norace
+func bkEnter() int32 {
+	if sMode != modeSched || sTurn < 0 {
+		return -1
+	}
+	t := sTasks[sTurn]
+	t.inBlocking = true
+	t.bkSince = 0
+	return int32(t.id)
+}
+
+//go:norace
+func settle() {
+	for i := 0; i < 4*len(sTasks)+4; i++ {
+		runtime.Gosched()
+	}
+}
+
+//go:norace
+func bkLeave(tok int32) {
+	if tok < 0 || int(tok) >= len(sTasks) {
+		return
+	}
+	t := sTasks[tok]
+	t.inBlocking = false
+	if t.realBlocked {
+		// we were parked and the processor was given away; runnable again
+		t.realBlocked = false
+		if sTurn < 0 {
+			sTurn = t.id
+		}
+		for sTurn != t.id {
+			runtime.Gosched()
+		}
+	}
+	settle()
+}
+
+// spinCheck is called by tasks that spin for their turn: has the task that
+// holds the processor parked in the Go runtime?
+//
+//go:norace
+func spinCheck(me int) {
+	h := sTurn
+	if h < 0 || h >= len(sTasks) {
+		return
+	}
+	t := sTasks[h]
+	if !t.inBlocking || t.realBlocked {
+		return
+	}
+	now := nanotime()
+	if t.bkSince == 0 || t.bkClock != sClock {
+		t.bkSince = now
+		t.bkClock = sClock
+		return
+	}
+	if now-t.bkSince < 50_000_000 {
+		return
+	}
+	// parked: hand the processor to the lowest-numbered runnable task
+	t.realBlocked = true
+	sRealBlocks++
+	to := nextRunnable(h)
+	sEvHash = plan.Mix(sEvHash ^ uint64(h)<<48 ^ t.steps<<8 ^ 0xfd<<40 ^ uint64(int64(to)))
+	if sKeepLog {
+		sEvLog = append(sEvLog, switchEvent{h, t.steps, -2, to, sClock})
+	}
+	sTurn = to
+}
+
+//go:norace
+func nanotime() int64 { return time.Now().UnixNano() }
 
 type deadlockSentinel struct{}
 
@@ -136,6 +231,7 @@ func simWait(addr unsafe.Pointer) {
 	sTurn = to
 	for sTurn != t.id {
 		runtime.Gosched()
+		spinCheck(t.id)
 	}
 	t.waitAddr = nil
 	if sDeadlock {
@@ -209,7 +305,7 @@ func hook(site int32) {
 func nextRunnable(after int) int {
 	n := len(sTasks)
 	for i := 0; i < n; i++ {
-		if !sTasks[i].done && i != after && sTasks[i].waitAddr == nil {
+		if !sTasks[i].done && i != after && sTasks[i].waitAddr == nil && !sTasks[i].realBlocked {
 			return i
 		}
 	}
@@ -230,7 +326,7 @@ func anyLive(after int) int {
 
 //go:norace
 func switchTo(me *schedTask, to int, site int32) {
-	if to < 0 || to >= len(sTasks) || sTasks[to].done || to == me.id || sTasks[to].waitAddr != nil {
+	if to < 0 || to >= len(sTasks) || sTasks[to].done || to == me.id || sTasks[to].waitAddr != nil || sTasks[to].realBlocked {
 		if to == me.id {
 			return
 		}
@@ -253,6 +349,7 @@ func switchTo(me *schedTask, to int, site int32) {
 	sTurn = to
 	for sTurn != me.id {
 		runtime.Gosched()
+		spinCheck(me.id)
 	}
 }
 
@@ -262,6 +359,7 @@ func switchTo(me *schedTask, to int, site int32) {
 func waitTurn(me int) {
 	for sTurn != me {
 		runtime.Gosched()
+		spinCheck(me)
 	}
 	sTasks[me].started = true
 }
@@ -277,6 +375,12 @@ func finish(me int) {
 		sMonitor()
 	}
 	to := nextRunnable(me)
+	if to < 0 && anyParked(me) {
+		// the remaining tasks are parked in the Go runtime: nobody holds the
+		// processor until one of them is woken (or the stall monitor gives up)
+		sTurn = -1
+		return
+	}
 	if to < 0 {
 		if w := anyLive(me); w >= 0 {
 			// the remaining tasks all wait for locks nobody will release
@@ -290,6 +394,16 @@ func finish(me int) {
 		sEvHash = plan.Mix(sEvHash ^ uint64(me)<<48 ^ t.steps<<8 ^ 0xff<<40 ^ uint64(to))
 		sTurn = to
 	}
+}
+
+//go:norace
+func anyParked(after int) bool {
+	for i := range sTasks {
+		if !sTasks[i].done && i != after && sTasks[i].realBlocked {
+			return true
+		}
+	}
+	return false
 }
 
 //go:norace
@@ -328,6 +442,7 @@ func resetSched(n int, sch *plan.Schedule, keepLog bool) {
 	sAbort = false
 	sDeadlock = false
 	sLockWaits = 0
+	sRealBlocks = 0
 }
 
 //go:norace
@@ -365,7 +480,29 @@ func SiteNames() []string {
 }
 
 //go:norace
-func schedProgress() (hookMode, uint64, uint64) { return sMode, sClock, sLockWaits }
+func schedProgress() (hookMode, uint64, uint64) { return sMode, sClock, sLockWaits + sRealBlocks }
+
+// parkedForever: in a concurrent phase, is every task that is still alive
+// parked in the Go runtime (or is the holder of the processor parked with nobody
+// left to take over)?
+//
+//go:norace
+func parkedForever() bool {
+	if sMode != modeSched {
+		return false
+	}
+	live := 0
+	for _, t := range sTasks {
+		if t.done {
+			continue
+		}
+		live++
+		if !(t.realBlocked || (t.inBlocking && t.id == sTurn)) {
+			return false
+		}
+	}
+	return live > 0
+}
 
 // StartStallMonitor watches the simulated clock from a separate goroutine. If
 // a concurrent phase makes no progress for 20 s of wall time, the task that
@@ -375,7 +512,7 @@ func schedProgress() (hookMode, uint64, uint64) { return sMode, sClock, sLockWai
 // STALL and exits with code 4; the driver counts the run as not simulated and
 // carries on with the next one. (Reading the wall clock here influences no
 // run: it only decides when to give up on one.)
-func StartStallMonitor(report func()) {
+func StartStallMonitor(report func(), unbounded func()) {
 	go func() {
 		var last uint64
 		same := 0
@@ -391,6 +528,11 @@ func StartStallMonitor(report func()) {
 			} else {
 				same = 0
 				last = c + w
+			}
+			if same >= 6 && parkedForever() {
+				// 3 s without progress and every live task is parked inside a
+				// channel / Cond / WaitGroup operation: nobody is left to wake them
+				unbounded()
 			}
 			if same >= 40 {
 				report()
